@@ -46,6 +46,8 @@ def replay(prop, path):
     with open(path) as f:
         obj = json.load(f)
     item = obj.get('replay')
+    if prop in ('C01', 'C02', 'C04', 'C10') and isinstance(item, dict) and 'scenario' in item:
+        return replay_pool(prop, path, obj, item['scenario'])
     if prop not in REPLAYERS or not isinstance(item, dict) or 'id' not in item:
         print(json.dumps(obj, indent=1)[:4000])
         return 0
@@ -71,4 +73,38 @@ def replay(prop, path):
     if not r.get('alive', True):
         print('VIOLATION property=%s replay=%s' % (prop, path))
         print('  kind: pgcat_died')
+    return 1
+
+
+def replay_pool(prop, path, obj, sc):
+    """Pool properties: run the history again and validate the hook-side and the server-side trace."""
+    import os
+    from . import core, tlc, poolcore
+    core.build_pgcat()
+    r = poolcore.run_scenario(sc)
+    if 'error' in r:
+        print('TOOL-ERROR: scenario crashed: ' + r['error'][-800:])
+        return 2
+    fired = []
+    for key in ('hook_trace', 'backend_trace'):
+        t = r.get(key)
+        if not t:
+            continue
+        os.environ['NC'] = str(t['nc'])
+        os.environ['NS'] = str(t['ns'])
+        res, info = tlc.validate_trace('Trace_PoolCore', 'Trace_PoolCore.cfg', t['recs'])
+        if info['matched'] != info['total']:
+            print('TOOL-ERROR: Trace_PoolCore(%s) consumed %s of %s records' % (key, info['matched'], info['total']))
+            return 2
+        fired += [(key, vi) for vi in info['viol']]
+    for o in r.get('obs', []):
+        print('observation: %s' % json.dumps(o, default=repr)[:300])
+    if not fired and r.get('alive', True):
+        print('replay of %s: no monitor fired (recorded signature: %s); client-side observations are listed above'
+              % (path, obj.get('sig')))
+        return 0
+    for key, vi in fired:
+        print('VIOLATION property=%s replay=%s' % (prop, path))
+        print('  kind: %s (%s)' % (vi['kind'], key))
+        print('  detail: %s' % json.dumps(vi['detail'], default=repr)[:600])
     return 1
